@@ -21,6 +21,7 @@ API (keep it this small):
     g = Gen(rng, size, errors); ast = g.program(); text = pp(ast, rng)   # the two stages
 
     from gen_prog import gen_reuse_program, gen_separator_program, SEPARATORS   # targeted scenario streams (see below)
+    from gen_prog import gen_shadow_program, BINDERS                           # shadowing: inner binder kind x outer binder kind
 
   The AST is nested tuples ('kind', ...); `pp` prints it with random redundant parentheses,
   whitespace (spaces, tabs, LF, CRLF), comments (#, //, /* */) and all string literal forms
@@ -497,7 +498,17 @@ class Gen:
         n = self.r.choice([1, 1, 2, 2, 3])
         names = [self.r.choice(VARS) for _ in range(n)]
         for i, nm in enumerate(names):
-            src = self.gen(c, ('arr', 'num'), depth + 2)
+            if i > 0 and self.r.random() < 0.35:
+                # a later clause rebinds an earlier clause's variable, and its source depends on the earlier value
+                prev = names[self.r.randrange(i)]
+                nm = prev if self.r.random() < 0.7 else nm
+                names[i] = nm
+                src = self.r.choice([('arr', [('bin', '*', ('var', prev), ('num', '10'))]),
+                                     ('arr', [('var', prev), ('bin', '+', ('var', prev), ('num', '1'))]),
+                                     ('call', ('std', 'range'), [('var', prev), ('bin', '+', ('var', prev), ('num', '1'))], [], False)])
+                self.k('comp_rebinds_earlier_clause' if nm == prev else 'comp_source_uses_earlier_clause')
+            else:
+                src = self.gen(c, ('arr', 'num'), depth + 2)
             specs.append(('for', nm, src))
             c = c.bind(nm, 'num')
             if self.r.random() < 0.4:
@@ -1040,6 +1051,70 @@ def gen_separator_program(rng, sep=None, inherited=None, body=None, form=None):
     text = 'local o = %s;%s[%s]' % (o, _ws(r), (',' + _ws(r)).join(obs[:r.randint(3, len(obs))] + ([('o.%s' % fname) if form != 'method' else ('o.%s(2)' % fname)])))
     cell = (sep, 'inherited' if inherited else 'fresh', body)
     return text, {'nodes': 20, 'kinds': {'separator_form_' + form: 1}, 'planted': ['inherited_error'] if body == 'error' else [], 'cell': cell}
+
+
+BINDERS = ['local', 'param', 'default_param', 'objlocal', 'comp', 'objcomp']
+
+
+def gen_shadow_program(rng, inner=None, outer=None):
+    """-> (text, info).  An OUTER binder of kind `outer` binds a name, an INNER binder of kind `inner` rebinds the
+    same name (its value depends on the outer one wherever the language evaluates it in the outer scope); the program
+    returns what is seen inside the inner binder, between the two, and after.  info['pair'] = (inner, outer).
+    Kinds: local, param, default_param, objlocal, comp (array comprehension clause), objcomp (object comprehension clause).
+    inner == outer == 'comp'/'objcomp' is the SAME comprehension rebinding an earlier clause's variable."""
+    r = rng
+    inner = inner or r.choice(BINDERS)
+    outer = outer or r.choice(BINDERS)
+    v = r.choice(VARS)
+    u = r.choice([n for n in VARS if n != v])
+    a, b = r.choice(['1', '2', '3']), r.choice(['4', '5', '7'])
+    k10 = r.choice(['10', '100'])
+    see = r.choice([v, '%s + 0' % v, '[%s][0]' % v, '{ q: %s }.q' % v, '(function() %s)()' % v])
+
+    def inner_form(body):
+        """rebinds v; where the binder's value is evaluated in the enclosing scope it uses the outer v"""
+        if inner == 'local':
+            return r.choice(['local %s = %s * %s; local %s = %s; %s' % (u, v, k10, v, u, body),
+                             'local %s = %s; %s' % (v, b, body)])
+        if inner == 'param':
+            return '(function(%s) %s)(%s * %s)' % (v, body, v, k10)
+        if inner == 'default_param':
+            return '(function(%s, %s = %s * %s) (local %s = %s; %s))(%s)' % (u, v, u, k10, u, b, body, v)
+        if inner == 'objlocal':
+            return r.choice(['local %s = %s * %s; { local %s = %s, r: %s }.r' % (u, v, k10, v, u, body),
+                             '{ local %s = %s, r: %s }.r' % (v, b, body)])
+        if inner == 'comp':
+            return r.choice(['[%s for %s in [%s * %s]]' % (body, v, v, k10),
+                             '[%s for %s in [%s, %s + 1] if %s > 0]' % (body, v, v, v, v),
+                             '[%s for %s in [%s] for %s in [%s * %s]]' % (body, v, v, v, v, k10)])
+        return '{ [std.toString(%s)]: %s for %s in [%s * %s] }' % (v, body, v, v, k10)
+
+    if inner == outer and inner in ('comp', 'objcomp'):
+        # one comprehension, a later clause reuses the earlier clause's variable
+        tail = r.choice(['', ' if %s > %s' % (v, a), ' for %s in [%s]' % (u, v), ' if %s > 0 for %s in [%s + 1]' % (v, v, v)])
+        src2 = r.choice(['[%s * %s]' % (v, k10), '[%s, %s * %s]' % (v, v, k10), 'std.range(%s, %s + 1)' % (v, v)])
+        if inner == 'comp':
+            text = '[%s for %s in [%s, %s] for %s in %s%s]' % (see, v, a, b, v, src2, tail)
+        else:
+            text = '{ ["k" + %s]: %s for %s in [%s, %s] for %s in [%s * %s]%s }' % (v, see, v, a, b, v, v, k10, tail if ' for %s in' % v not in tail else '')
+        return text, {'nodes': 15, 'kinds': {}, 'planted': [], 'pair': (inner + ' later clause', outer + ' earlier clause')}
+
+    mid = '[%s, %s, %s]' % (see, inner_form(see), v)      # before, inside, after the inner binder
+    if outer == 'local':
+        text = 'local %s = %s; %s' % (v, a, mid)
+    elif outer == 'param':
+        text = '(function(%s) %s)(%s)' % (v, mid, a)
+    elif outer == 'default_param':
+        text = '(function(%s = %s) %s)()' % (v, a, mid)
+    elif outer == 'objlocal':
+        text = '{ local %s = %s, r: %s }.r' % (v, a, mid)
+    elif outer == 'comp':
+        text = '[%s for %s in [%s, %s]]' % (mid, v, a, b)
+    else:
+        text = '{ ["k" + %s]: %s for %s in [%s, %s] }' % (v, mid, v, a, b)
+    if r.random() < 0.3:
+        text = 'local %s = 1000; %s' % (v, text)          # a third, outermost binding of the same name
+    return text, {'nodes': 20, 'kinds': {}, 'planted': [], 'pair': (inner, outer)}
 
 
 if __name__ == '__main__':
